@@ -2606,3 +2606,34 @@ mod test {
         Ok(())
     }
 }
+
+/// Verification hooks (off by default).
+#[cfg(hickory_dns_verif)]
+pub mod verif {
+    use super::*;
+    use crate::proto::dnssec::rdata::NSEC3;
+
+    /// Direct access to the NSEC decision procedure.
+    pub fn verify_nsec(
+        query: &Query,
+        soa_name: Option<&Name>,
+        response_code: ResponseCode,
+        answers: &[Record],
+        nsecs: &[(&Name, &NSEC)],
+    ) -> Proof {
+        super::verify_nsec(query, soa_name, response_code, answers, nsecs)
+    }
+
+    /// Direct access to the NSEC3 decision procedure.
+    pub fn verify_nsec3(
+        query: &Query,
+        soa: Option<&Name>,
+        response_code: ResponseCode,
+        answers: &[Record],
+        nsec3s: &[(&Name, &NSEC3)],
+        soft: u16,
+        hard: u16,
+    ) -> Proof {
+        super::nsec3::verify_nsec3(query, soa, response_code, answers, nsec3s, soft, hard)
+    }
+}
